@@ -894,6 +894,8 @@ def C17_exDocBlock : List (DocItem × List Tok) :=
   [(.step [.text (([tk .word "Mix".toList] ++ [tk .ws [' ']]) ++
       [tk .blockComment "[- c -]".toList, tk .ws [' ']] ++ [tk .word "well".toList])], [tk .newline ['\n']])]
 
+/-- helper for the non-vacuity examples below: a document of single-text-run steps under the toy
+    environment (no extension) is well formed once the decidable conditions hold -/
 theorem C17_exDocWF (doc : List (DocItem × List Tok))
     (h1 : (∀ d ∈ doc, d.1.ok C17_toyEnv.cs C17_toyEnv.ext = true) ∧ (∀ d ∈ doc, d.1.simple = true) ∧
       sepsOK (doc.map (·.2)) = true ∧ WellSpelled C17_toyEnv.cs ([] ++ docSpec doc) ∧
